@@ -244,6 +244,30 @@ impl Default for ValidatorParser {
     }
 }
 
+/// Verification hooks: re-export private helpers to the out-of-tree native replay harness
+#[cfg(feature = "verif-hooks")]
+pub mod verif_hooks {
+    pub fn split_top_level(text: &str) -> Vec<String> {
+        super::split_top_level(text)
+    }
+    pub fn named_arguments(content: &str) -> Vec<(String, String)> {
+        super::named_arguments(content)
+    }
+    pub fn parse_message_from_content(content: &str) -> Option<String> {
+        super::ValidatorParser::new().parse_message_from_content(content)
+    }
+    pub fn parse_length_from_tokens(tokens: &str) -> bool {
+        super::ValidatorParser::new()
+            .parse_length_from_tokens(tokens)
+            .is_some()
+    }
+    pub fn parse_range_from_tokens(tokens: &str) -> bool {
+        super::ValidatorParser::new()
+            .parse_range_from_tokens(tokens)
+            .is_some()
+    }
+}
+
 #[cfg(test)]
 mod tests {
     use super::*;
